@@ -68,6 +68,9 @@ func vSetVersion(vs *versionStore, v string) error {
 func vNewVersionService() (*VersionService, *vVerModel) {
 	m := &vVerModel{exists: zzverif.Bool("stored.exists"), stored: zzverif.Str("stored.version"),
 		getErr: zzverif.Bool("store.get_err"), setErr: zzverif.Bool("store.set_err")}
+	if vVerFixedStored != "" {
+		m.stored = vVerFixedStored // entry with a concrete stored version (the draw above is ignored)
+	}
 	vVer = m
 	if zzverif.Symbolic() {
 		zzverif.Override("(*github.com/elementsproject/peerswap/version.versionStore).GetVersion", vGetVersion)
@@ -164,7 +167,21 @@ func (a *vActive) HasActiveSwaps() (bool, error) {
 //   - every error result leaves the stored version unchanged.
 //
 // Bounds: none (one arbitrary string cell).  Outside: bbolt itself (atomic Put/Commit).
-func H_C29_safeUpgrade() {
+func H_C29_safeUpgrade() { vSafeUpgradeEntry() }
+
+// vVerFixedStored: a concrete stored version for H_C29_safeUpgradeKnownVersions.
+var vVerFixedStored string
+
+// H_C29_safeUpgradeKnownVersions: the same obligations for concrete stored versions around the running
+// one - older, equal, newer, longer, with a suffix, not a version at all - so that the verdict does not
+// depend on how (or whether) the code parses version strings.
+func H_C29_safeUpgradeKnownVersions() {
+	vs := []string{"v0.1", "v0.2", "v0.3", "v0.2.1", "v0.2.0", "v0.10", "v1.0", "v0.2.0-beta", "garbage"}
+	vVerFixedStored = vs[zzverif.Choice("stored.known", len(vs))]
+	vSafeUpgradeEntry()
+}
+
+func vSafeUpgradeEntry() {
 	vsvc, m := vNewVersionService()
 	before, beforeExists := m.stored, m.exists
 	act := &vActive{}
